@@ -6,6 +6,6 @@ CONSTANTS
   Kinds = {"open", "change1"}
   Emit = TRUE
   Deviations = {}
-INVARIANTS CacheCoherent PublishesMatchNotifications AnswerExactlyOnce NoPendingAtRest NeverAnswerNotification Survives EmitReplay
+INVARIANTS CacheCoherent DocsFollowProtocol PublishesMatchNotifications AnswerExactlyOnce NoPendingAtRest NeverAnswerNotification Survives EmitReplay
 PROPERTIES PublishExactlyOnce
 CHECK_DEADLOCK FALSE
